@@ -81,8 +81,10 @@ fn find_derive_attr(attrs: &[Attribute], trait_name: &str) -> Option<MySyntaxNod
 }
 
 fn parse_derive_targets(attr: &Attribute) -> Option<Vec<String>> {
+    // The attribute node's text goes on after the closing bracket when a comment follows
+    // it (`#[derive(ToString)] // note`).
     let trimmed = attr.text.trim();
-    let without_wrapper = trimmed.strip_prefix("#[")?.strip_suffix(']')?;
+    let (without_wrapper, _) = trimmed.strip_prefix("#[")?.split_once(']')?;
     let inner = without_wrapper.trim();
     let after_derive = inner.strip_prefix("derive")?.trim_start();
     let without_paren = after_derive.strip_prefix('(')?.strip_suffix(')')?;
